@@ -492,6 +492,41 @@ theorem closed_listener_removed (r : Reg) (p : Pkt) (l : Lid) (v : Via)
         exact absurd hl (by simpa using hrt.2)
   exact hrec _ rfl
 
+/-! ### sweeping closed SSRC bindings -/
+
+/-- **ssrc_sweep_only_drops_closed**: whichever way an SSRC is bound — explicit registration (always
+sweeps) or learnt from a packet (sweeps only when the table has reached `sweepAt`, i.e. has doubled
+since the last sweep) — the only entries that can disappear are the one being re-bound and entries of
+listeners whose channel is closed: every binding of an OPEN listener for another SSRC survives; and
+the new binding is in place. -/
+theorem ssrc_sweep_only_drops_closed (r : Reg) (ssrc : Nat) (l : Lid) (s : Nat) (l' : Lid)
+    (hm : (s, l') ∈ r.bySsrc) (hs : s ≠ ssrc) (hopen : r.isClosed l' = false) :
+    (s, l') ∈ (bindSsrc r ssrc l).bySsrc ∧ (s, l') ∈ (bindFromPacket r ssrc l).bySsrc ∧
+    lookup ssrc (bindSsrc r ssrc l).bySsrc = some l ∧ lookup ssrc (bindFromPacket r ssrc l).bySsrc = some l := by
+  have hkeep : (s, l') ∈ retainOpen r.closed r.bySsrc := by
+    simp only [retainOpen, List.mem_filter]; exact ⟨hm, by simpa [Reg.isClosed] using hopen⟩
+  have hins : ∀ m : List (Nat × Lid), (s, l') ∈ m → (s, l') ∈ RtcModel.Demux.insert ssrc l m := by
+    intro m h; simp only [RtcModel.Demux.insert, List.mem_cons, List.mem_filter]; right; exact ⟨h, by simpa using hs⟩
+  refine ⟨hins _ hkeep, ?_, lookup_insert_same _ _ _, ?_⟩
+  · unfold bindFromPacket; split
+    · exact hins _ hkeep
+    · exact hins _ hm
+  · unfold bindFromPacket; split <;> exact lookup_insert_same _ _ _
+
+/-- **stale_binding_never_delivers**: between two sweeps the table may hold bindings of listeners whose
+channel has closed.  Such an entry never causes a delivery: a packet that selects a closed listener
+(by that stale binding or any other rule) reaches nobody, and the stale listener is removed from
+every map on the spot. -/
+theorem stale_binding_never_delivers (r : Reg) (p : Pkt) (l : Lid) (hs : lookup p.ssrc r.bySsrc = some l)
+    (hc : r.isClosed l = true) (hr : stageRid r p = none) (hm : stageMid r p = none)
+    (hv : vetoed r p l = false) :
+    (receive r p).2 = .closedOut l .ssrc ∧ ¬ Registered (receive r p).1 l := by
+  have hl : lateStages r p = some (l, .ssrc, false) := by simp [lateStages, hs]
+  have hsel : select r p = some (l, .ssrc, false) := by simp [select, hr, hm, hl, hv]
+  have hout : (receive r p).2 = .closedOut l .ssrc := by
+    simp [receive, hsel, afterSelect, deliver, hc]
+  exact ⟨hout, closed_listener_removed r p l .ssrc hout⟩
+
 end demux
 
 /-! ## Part 2 — the rewrite bridge -/
